@@ -163,6 +163,6 @@ def classify(fc):
         return "unwind"
     if "unsupported" in d or "not currently supported" in d or "is not supported" in d:
         return "unsupported"
-    if "/verif/harness/" in fc["file"] or "verif_" in fc["function"] and "/harness/" in fc["file"]:
+    if "/harness/" in fc["file"]:
         return "property"
     return "panic"
